@@ -44,7 +44,8 @@ func init() {
 	Register(&Prop{
 		ID:    "C05",
 		Title: "ORDER BY sorts, LIMIT/OFFSET return the exact window and never fail",
-		Rule: "rapid draws a table (0-10 rows, ties frequent; about 3% of the cases expand it to 200-700 rows by a recipe, the first sort key spread over 3-700 values, LIMIT / OFFSET stretched along in half of them), a select list that is `*` or columns under their own, fresh or mutually swapped output names, 0-3 sort keys among the output columns with random directions (a single key may be " +
+		Rule: "[Dimensions added in rounds p-r of the seeded-defect evaluation: large tables in 6% of the cases, a quarter of them 1000-2600 rows; with a single key and no WHERE, NULL keys at up to three of the first eight rows under a short window; without WHERE, NUL bytes appended to every second text key; a sixth of the enveloped cases run after 1-3 failing statements (sorts that fail part-way among them).] " +
+			"rapid draws a table (0-10 rows, ties frequent; about 3% of the cases expand it to 200-700 rows by a recipe, the first sort key spread over 3-700 values, LIMIT / OFFSET stretched along in half of them), a select list that is `*` or columns under their own, fresh or mutually swapped output names, 0-3 sort keys among the output columns with random directions (a single key may be " +
 			"nullable), an optional WHERE, an optional DISTINCT, numeric columns also as native Go types (one key column sometimes as int64 / int / uint64 / uint beyond 2^53) and an optional LIMIT n [OFFSET m] in all three spellings with n,m in 0..len+3; oracles: the unordered " +
 			"result equals the reference filter; the ordered result is a permutation of it whose adjacent pairs respect the key list " +
 			"lexicographically with NULL keys last (single key); the limited result has length min(n, max(0,|S|-m)), its key tuples equal those of " +
